@@ -75,7 +75,10 @@ def generate(ck):
             continue
         if i % 5 == 4:
             comp = wl.gas_composition(rng)
-            descs.append({"kind": "composition", "comp": comp, "n_rows": 25 if ck.tier == "quick" else 60})
+            descs.append({"kind": "composition", "comp": comp, "n_rows": 25 if ck.tier == "quick" else 60, "pmax_as": ["float", "int", "int64", "float", "int32"][(i // 5) % 5]})
+            if i % 400 == 4:
+                # ... and the default range, 10 .. 14000 psia, as most callers build it
+                descs.append({"kind": "composition", "comp": wl.gas_composition(np.random.default_rng(i + ck.seed)), "n_rows": 1399, "pmax_as": "default"})
             continue
         Tr = [1.05, 3.0, 1.1, 1.2, 1.5, 2.0][i % 6] if i < 12 else wl.f(rng.uniform(1.05, 3.0))
         Tpc, ppc = wl.pseudocritical(rng)
@@ -180,7 +183,13 @@ def run_case(ck, desc):
         dry = comp.pop("dryness")
         # the table builder itself, over (a slice of) its default pressure range
         hi = 10.0 * (desc["n_rows"] + 1)
-        table = build_pvt_gas(comp, dry, maximum_pressure=hi)
+        # (the limit is written 260, 260.0 or np.int64(260) by different callers, or left at its default)
+        how = desc.get("pmax_as", "float")
+        if how == "default":
+            table = build_pvt_gas(comp, dry)
+        else:
+            table = build_pvt_gas(comp, dry, maximum_pressure={"float": float, "int": int, "int64": np.int64, "int32": np.int32}[how](hi))
+        ck.count(f"tables_built.maximum_pressure_as_{how}")
         ck.count("tables_built")
         from bluebonnet.fluids.gas import make_nonhydrocarbon_properties, pseudocritical_point_Sutton
 
@@ -189,6 +198,11 @@ def run_case(ck, desc):
         # and the top of the default range (10 .. 14000 psia)
         # the table's Z column belongs to THIS gas: every evaluation the builder made carried the
         # pseudocritical point of the composition it was given (public route: N2, H2S, CO2 in that order)
+        temps = {float(e[0]) for e in EVENTS}
+        if temps and temps != {float(T)}:
+            ck.violation("table-built-for-the-temperature-given", {"temperatures_used": sorted(temps)[:3], "given": float(T), "maximum_pressure_as": how}, desc)
+        if "temperature" in table and not np.all(np.asarray(table["temperature"], dtype=float) == float(T)):
+            ck.violation("table-built-for-the-temperature-given", {"temperature_column": [float(v) for v in np.unique(np.asarray(table["temperature"], dtype=float))[:3]], "given": float(T), "maximum_pressure_as": how}, desc)
         used = {(round(float(e[2]), 9), round(float(e[3]), 9)) for e in EVENTS}
         if used and used != {(round(float(Tpc), 9), round(float(ppc), 9))}:
             ck.violation("table-built-for-the-composition-given", {"pseudocritical_points_used": sorted(used)[:3], "expected": [float(Tpc), float(ppc)], "composition": {k: comp[k] for k in ("N2", "H2S", "CO2")}}, desc)
